@@ -141,8 +141,20 @@ static inline void perturb(unsigned long r) {
 		sched_yield();
 	}
 }
+// debugging aid (DVM_TRACE=<queue index>): print every change of that queue's state word, attributed to the
+// hook site that preceded it; only meaningful in F1 mode (one CPU)
+static volatile uint64_t *trace_word; static uint64_t trace_last; static const char *trace_file = ""; static int trace_line; static uint32_t trace_tid;
 static void dvm_hook(const char *file, int line) {
 	uint64_t step = atomic_fetch_add_explicit(&S->hook_calls, 1, memory_order_relaxed);
+	if (trace_word) {
+		uint64_t v = *trace_word;
+		if (v != trace_last) {
+			fprintf(stderr, "TRACE step=%llu t%u %s:%d  %#018llx -> %#018llx  width=%llu\n", (unsigned long long)step, trace_tid, strrchr(trace_file, '/') ? strrchr(trace_file, '/') + 1 : trace_file, trace_line,
+				(unsigned long long)trace_last, (unsigned long long)v, (unsigned long long)((v >> 41) & 0x1fff));
+			trace_last = v;
+		}
+		trace_file = file; trace_line = line; trace_tid = tid_get();
+	}
 	unsigned long r = hrand();
 	int p = P.p_permille;
 	if (P.strat == STRAT_SITE) {
